@@ -487,6 +487,12 @@ fn string_number(vm: &mut Vm) -> Result<VCell, Error> {
         2 => pop_usize(vm)? as u32,
         _ => 10_u32,
     };
+    if !(2..=36).contains(&radix) {
+        return Err(InvalidSyntax(format!(
+            "string->number: {} is not a valid radix",
+            radix
+        )));
+    }
     let s = pop_string(vm, "string->number")?;
     let s = s.borrow();
     let s = s.as_str();
